@@ -865,6 +865,10 @@ Hdupdd(int32  file_id, /* IN: File ID the tag/refs are in */
     if (HTPupdate(new_dd, old_off, old_len) == FAIL)
         HGOTO_ERROR(DFE_INTERNAL, FAIL);
 
+    /* the new ref is in use now: Hnewref() must not hand it out */
+    if (ref > file_rec->maxref)
+        file_rec->maxref = ref;
+
     /* End access to the old & new DDs */
     if (HTPendaccess(old_dd) == FAIL)
         HGOTO_ERROR(DFE_INTERNAL, FAIL);
